@@ -93,7 +93,21 @@ func c17R1(a *A) {
 	}
 	// representative points of every order region the comparisons can distinguish
 	pts := map[int64]bool{0: true, 1: true, 1 << 20: true}
+	// constants of the comparisons, their pairwise sums and differences (a comparison such as
+	// lengthField+4 == len distinguishes the region len-lengthField = 4), each with its neighbours
+	base := map[int64]bool{}
 	for k := range consts {
+		base[k] = true
+	}
+	for k1 := range consts {
+		for k2 := range consts {
+			base[k1+k2] = true
+			if k1-k2 >= 0 {
+				base[k1-k2] = true
+			}
+		}
+	}
+	for k := range base {
 		for d := int64(-1); d <= 1; d++ {
 			if k+d >= 0 {
 				pts[k+d] = true
